@@ -23,7 +23,7 @@ GEN = LEAN + "/S2/Generated"
 WORK = A.work
 MREPO = WORK + "/mrepo"
 ENV = dict(os.environ, GOFLAGS="-mod=mod", GOPROXY="off", GOSUMDB="off", GOTOOLCHAIN="local")
-TIES = ["S2Proofs.Ties.C19", "S2Proofs.Ties.C05", "S2Proofs.Ties.C13", "S2Proofs.Ties.C12"]
+TIES = ["S2Proofs.Ties.C19", "S2Proofs.Ties.C05", "S2Proofs.Ties.C13", "S2Proofs.Ties.C12", "S2Proofs.Ties.C12_Edge"]
 HERE = os.path.dirname(os.path.abspath(__file__))
 MUTS = json.load(open(HERE + "/muts.json"))
 
